@@ -381,6 +381,7 @@ func directedHistories() []history {
 	// round 5: failure outcomes as carriers of state between requests (fail.go)
 	hs = append(hs, failureHistories()...)
 	hs = append(hs, directedCaseHistories()...) // round 6 (envelope.go)
+	hs = append(hs, mutationHistories()...)     // round 7 (mutate.go)
 	return hs
 }
 
